@@ -127,6 +127,9 @@ benign("c19-benign-extra-kwargs-catchall", "C19", JT, "def _patched(a: ArrayLike
 benign("c19-benign-annotation-change", "C19", JT, "def _patched(a: ArrayLike, axes: AxesArg = None) -> jax.Array:", "def _patched(a: object, axes: object = None) -> jax.Array:")
 
 # ----------------------------------------------------------------------------- C02
+mutant("c02-softmax-listed-layout-invariant", "C02", OPT, "    \"Abs\",\n    \"Neg\",\n    \"Exp\",", "    \"Abs\",\n    \"Softmax\",\n    \"Neg\",\n    \"Exp\",", expect="R-C02k")
+mutant("c02-same-value-by-producer", "C02", OPT, "    if left is right:\n        return True\n    left_name = _v_name(left)", "    if left is right:\n        return True\n    left_producer = left.producer()\n    if left_producer is not None and left_producer is right.producer():\n        return True\n    left_name = _v_name(left)", expect="R-C02j")
+benign("c02-benign-erf-listed-layout-invariant", "C02", OPT, "    \"Abs\",\n    \"Neg\",\n    \"Exp\",", "    \"Abs\",\n    \"Erf\",\n    \"Neg\",\n    \"Exp\",")
 mutant("c02-reduce-observation-guard-removed", "C02", OPT, "            if _value_is_observed(graph, nodes, reducer_out_val):\n", "            if False:\n", expect="remeant::reducer")
 mutant("c02-add-forest-guard-removed", "C02", OPT, "            if _any_node_output_observed(graph, nodes, add_nodes):\n", "            if False:\n", expect="remeant::add_nodes")
 mutant("c02-add-chain-guard-removed", "C02", OPT, "            if _any_node_output_observed(graph, nodes, add_chain):\n                continue\n", "", expect="add_chain")
@@ -238,6 +241,8 @@ benign("c15-benign-external-flag-after-save", "C15", UIF, "        if not any(in
 benign("c15-benign-dispatch-order", "C15", UIF, "    model_proto = ir.to_proto(result)\n    if normalized_mode == \"file\":", "    model_proto = ir.to_proto(result)\n    if \"file\" == normalized_mode:")
 
 # ----------------------------------------------------------------------------- C05
+mutant("c05-input-type-constant", "C05", "jax2onnx/converter/ir_context.py", "            name=f\"in_{index}\",\n            type=ir.TensorType(_dtype_to_ir(aval_dtype, promote_flag)),", "            name=f\"in_{index}\",\n            type=ir.TensorType(_dtype_to_ir(np.dtype(np.float32), promote_flag)),", expect="R-C05e")
+mutant("c05-output-type-from-default-float", "C05", "jax2onnx/converter/ir_context.py", "                target_enum = _dtype_to_ir(\n                    np_dtype, self.builder.enable_double_precision\n                )\n            current_type = v.type", "                target_enum = _dtype_to_ir(\n                    np.dtype(self._default_float_dtype), self.builder.enable_double_precision\n                )\n            current_type = v.type", expect="R-C05e")
 mutant("c05-revert-nchw-keep", "C05", OPT, '            if suffix.endswith("_nchw"):\n                suffix = suffix[: -len("_nchw")]\n', "", expect="_should_always_keep")
 mutant("c05-regex-loses-nchw", "C05", UIF, 'r"^in_(\\d+)(?:_nchw)?$"', 'r"^in_(\\d+)$"', expect="_POSITIONAL_INPUT_NAME_RE")
 mutant("c05-new-writer-pattern", "C05", "jax2onnx/converter/conversion_api.py", 'name=f"in_{index}_nchw",', 'name=f"in_{index}_as_nchw",', expect="in_")
@@ -348,6 +353,9 @@ mutant("c08-unary-dataflow-set-gains-comparison", "C08", OPT, "UNARY_DATAFLOW_OP
 mutant("c08-shape-key-forgets-symbol-names", "C08", OPT, "            key.append(f\"repr:{repr(d)}\")", "            key.append(\"sym\" if getattr(d, \"value\", None) is not None else \"?\")", expect="R-C08e")
 benign("c08-benign-shape-key-by-value-name", "C08", OPT, "            key.append(f\"repr:{repr(d)}\")", "            key.append(f\"sym:{getattr(d, 'value', None)!r}:{repr(d)}\")")
 benign("c08-benign-refresh-not-excluded-explicitly", "C08", OPT, "    if node.op_type in {\"Cast\", \"CastLike\", \"Not\"}:\n        # These ops can change dtype", "    if node.op_type in {\"Cast\", \"CastLike\"}:\n        # These ops can change dtype")
+mutant("c08-float16-declared-float32", "C08", "jax2onnx/converter/ir_context.py", "            and np.dtype(aval_dtype).itemsize\n            > np.dtype(self._default_float_dtype).itemsize", "            and aval_dtype != np.dtype(self._default_float_dtype)", expect="R-C08g")
+mutant("c08-merge-failure-keeps-operand-shape", "C08", OPT, "        if len(candidate_shapes) > 1:\n            # The broadcast of the operands cannot be derived here (e.g. two\n            # unrelated symbolic dims).  One operand's shape is not the result's\n            # shape, so keep the annotation the output already had.\n            outs[0].shape = previous_shape\n        return", "        return", expect="R-C08f")
+benign("c08-benign-narrow-only-float64", "C08", "jax2onnx/converter/ir_context.py", "            and np.dtype(aval_dtype).itemsize\n            > np.dtype(self._default_float_dtype).itemsize", "            and aval_dtype == np.float64")
 benign("c08-benign-guard-split", "C08", PPF, "            name = _value_name(output)\n            if name and name in io_names:\n                continue\n", "            name = _value_name(output)\n            if name:\n                if name in io_names:\n                    continue\n")
 mutant("c11-attribute-through-helper-mapping", "C11", "jax2onnx/plugins/flax/nnx/elu.py", 'attrs["alpha"] = float(alpha)', 'attrs["slope"] = float(alpha)', expect="slope")
 mutant("c02-swish-operands-not-compared", "C02", OPT, "        if isinstance(sigmoid_input, ir.Value) and _same_value(\n            sigmoid_input, passthrough\n        ):", "        if isinstance(sigmoid_input, ir.Value):", expect="_same_value")
